@@ -23,8 +23,6 @@ var selectorMethods = map[string]bool{
 // selectorIgnoreOK: sites that deliberately ignore the ok result, keyed
 // "function → callee", with reason.
 var selectorIgnoreOK = map[string]string{
-	"(*pkg/transformers.TransformerStep).handleRecord → ReferenceSelectedValues":      "per-element handling: each selected value is individually tested for nil (field absent in this record) before use",
-	"(*pkg/transformers.TransformerStep).handleDrainRecord → ReferenceSelectedValues": "per-element handling: each selected value is individually tested for nil before use",
 	"(*pkg/transformers/utils.JoinBucketKeeper).prepareForNewJoinBucket → ReferenceSelectedValues": "the peek record's keys were asserted present a few lines above in the same function (InternalCodingErrorIf(!hasAllJoinKeys)) and the record has not changed",
 }
 
@@ -160,6 +158,11 @@ func checkSelectorResults(c *Ctx, r *Report, rule string, files []string, floor 
 				if okVal == nil || !hasRealReferrer(okVal) {
 					if why, frozen := selectorIgnoreOK[SSAName(fn)+" → "+short]; frozen {
 						r.OK(rule, key, c.Rel(call.Pos()), "frozen: "+why)
+						continue
+					}
+					// per-element handling: every element taken from the values is tested against nil before any other use
+					if len(dataVals) > 0 && perElementNilTested(dataVals) {
+						r.OK(rule, key, c.Rel(call.Pos()), "per-element handling: each selected value is individually tested for nil (field absent in this record) before use")
 						continue
 					}
 					// acceptable if the data results are unused too, or a previous check on the same receiver and field list dominates
@@ -887,4 +890,60 @@ func handJoinedKey(c *Ctx, fn *ssa.Function) (string, token.Pos) {
 		}
 	}
 	return "", token.NoPos
+}
+
+// perElementNilTested: the values are only indexed, and every element so
+// obtained is used either in a comparison with nil or at a place dominated by
+// the element != nil edge of such a comparison.
+func perElementNilTested(vals []ssa.Value) bool {
+	isNilCmp := func(in ssa.Instruction, e ssa.Value) bool {
+		bo, ok := in.(*ssa.BinOp)
+		if !ok || (bo.Op != token.EQL && bo.Op != token.NEQ) {
+			return false
+		}
+		k, ok := bo.Y.(*ssa.Const)
+		return ok && k.IsNil() && bo.X == e
+	}
+	n := 0
+	for _, v := range vals {
+		if v.Referrers() == nil {
+			continue
+		}
+		for _, ref := range *v.Referrers() {
+			if _, isDbg := ref.(*ssa.DebugRef); isDbg {
+				continue
+			}
+			ia, ok := ref.(*ssa.IndexAddr)
+			if !ok || ia.X != v {
+				return false
+			}
+			for _, r2 := range *ia.Referrers() {
+				ld, ok := r2.(*ssa.UnOp)
+				if !ok || ld.Op != token.MUL {
+					return false
+				}
+				n++
+				for _, use := range *ld.Referrers() {
+					if _, isDbg := use.(*ssa.DebugRef); isDbg {
+						continue
+					}
+					if isNilCmp(use, ld) {
+						continue
+					}
+					guarded := false
+					for _, g := range GuardsAt(use.Block()) {
+						if bo, ok := g.Cond.(*ssa.BinOp); ok && isNilCmp(bo, ld) {
+							if (bo.Op == token.NEQ && g.Polarity) || (bo.Op == token.EQL && !g.Polarity) {
+								guarded = true
+							}
+						}
+					}
+					if !guarded {
+						return false
+					}
+				}
+			}
+		}
+	}
+	return n > 0
 }
